@@ -271,6 +271,8 @@ impl Monitor for C04 {
         let pick_cyclic = r.chance(3, 20);
         let (name, (u, p)) = if pick_cyclic {
             if r.chance(1, 3) { ("cyclic-merged", cyclic_merged(r)) } else { ("cyclic", cyclic_universe(r)) }
+        } else if gener::shaped_enabled() && r.chance(1, 40) {
+            ("conflict-chain", gener::conflict_chain(r))
         } else if gener::shaped_enabled() && r.chance(1, 10) {
             ("soft-backjump", gener::soft_backjump(r))
         } else if gener::shaped_enabled() && r.chance(1, 12) {
